@@ -13,6 +13,11 @@ HARNESSES = [
     bounds='SCANprocess_string: opening quote + every byte string of <= 6 (8) bytes incl. embedded quotes, NUL-terminated', **LEX),
   H('lex_encoded_string', 'c', 'harness/C06/h_lexact.c', defs={'quick': {'KERNEL': 4, 'NB': 6}, 'thorough': {'KERNEL': 4, 'NB': 10}}, unwind={'quick': 10, 'thorough': 14},
     bounds='SCANprocess_encoded_string: opening double quote + every byte string of <= 6 (10) bytes; reporter stubbed to record its arguments (also C20 call-site check)', **LEX),
+  H('pp_raw_short', 'c', 'harness/C06/h_pplong.c', repo_srcs=['src/exppp/exppp.c'], defs={'MAXLEN': 300, 'VERIF_STR_MAX': 310}, unwind=312, object_bits=10,
+    cflags=['-I/repo', '-fno-builtin'], models=['lib/cmodels/sprintf_only.c', 'lib/cmodels/printf_null.c'],
+    bounds='exppp raw( "%.*s", n, text ) with n = 0..300 symbolic (text concretised): the formatting primitive behind every printed token',
+    stubs=['vsprintf: content model', 'fwrite: succeeds', 'fprintf: empty'],
+    out_of_claim='texts of 10^4 characters and more: raw()/wrap() format into char buf[10000] with vsprintf and a literal without break point of >= 10000 characters overflows it (seen with the real exppp on a 12000-character literal: 12288 bytes written through the 10000-byte buffer, exit 0); the symbolic execution of the 10^4-iteration copy loops did not finish in 15 min, so this is outside what the check decides'),
 ]
 JOBS = 8
 MANIFEST = {
